@@ -152,6 +152,15 @@ fn schemas() -> Vec<Schema> {
         s("m.push_rules", Kind::Account, json!({"global": {"override": [{"rule_id": ".m.rule.master", "default": true, "enabled": false, "conditions": [], "actions": []}]}}), vec![]),
         s("m.identity_server", Kind::Account, json!({"base_url": "https://id.s"}), vec![]),
         s("org.example.unknown", Kind::State, json!({"anything": [1, {"x": null}]}), vec![("more", json!("x"))]),
+        // unknown types that are near misses of known ones (one of them a prefix of a type with a variable suffix)
+        s("m.room.name2", Kind::State, json!({"name": "n"}), vec![]),
+        s("m.room.messages", Kind::Message, json!({"msgtype": "m.text", "body": "b"}), vec![]),
+        s("m.typing2", Kind::Ephemeral, json!({"user_ids": ["@a:s"]}), vec![]),
+        s("m.direct2", Kind::Account, json!({"@a:s": ["!r:s"]}), vec![]),
+        s("m.secret_storage.key", Kind::Account, json!({"algorithm": "m.secret_storage.v1.aes-hmac-sha2"}), vec![]),
+        s("m.secret_storage.keys", Kind::Account, json!({"anything": 1}), vec![]),
+        s("m.secret_storage.key_rotation", Kind::Account, json!({"anything": 1}), vec![]),
+        s("m.dummy2", Kind::ToDevice, json!({}), vec![]),
         s("org.example.unknown.msg", Kind::Message, json!({"anything": 1}), vec![]),
         s("org.example.unknown.eph", Kind::Ephemeral, json!({"anything": 1}), vec![]),
         s("org.example.unknown.acc", Kind::Account, json!({"anything": 1}), vec![]),
@@ -332,7 +341,7 @@ fn check_event(acc: &mut Acc, s: &Schema, label: &str, content: &Value, redacted
     let describe = |why: &str| json!({"type": s.ty, "shape": label, "redacted": redacted, "keys_reversed": reversed, "strings_escaped": escaped, "event": text, "why": why});
     let r = std::panic::catch_unwind(|| -> Vec<(u8, String)> {
         let mut bad: Vec<(u8, String)> = vec![];
-        let is_unknown = s.ty.starts_with("org.example");
+        let is_unknown = s.ty.starts_with("org.example") || matches!(s.ty, "m.room.name2" | "m.room.messages" | "m.typing2" | "m.direct2" | "m.secret_storage.key" | "m.secret_storage.keys" | "m.secret_storage.key_rotation" | "m.dummy2");
         match s.kind {
             Kind::State | Kind::Message => {
                 match serde_json::from_str::<AnyTimelineEvent>(&text) {
